@@ -1778,7 +1778,9 @@ class Data(BaseCartesianData):
                         order = self.pixel_aligned_data[subset_state.reference_data]
                         subarray_slices = tuple(subset_state.slices[idx] for idx in order)
             else:
-                mask = subset_state.to_mask(self, view)
+                # (get_mask also handles selections that are defined on another
+                # dataset and reach this one through a key join)
+                mask = self.get_mask(subset_state, view=view)
 
                 unbroadcast_mask = unbroadcast(mask)
 
@@ -1922,7 +1924,7 @@ class Data(BaseCartesianData):
             if chunk_view is None:
                 full_shape = [self.shape[idim] for idim in range(ndim) if idim not in axis]
             else:
-                chunk_shape = subset_state.to_mask(self, chunk_view).shape
+                chunk_shape = self.get_mask(subset_state, view=chunk_view).shape
                 full_shape = [chunk_shape[idim] for idim in range(ndim) if idim not in axis]
 
             full_result = np.full(full_shape, np.nan)
